@@ -29,4 +29,4 @@ for n in names:
     finally:
         subprocess.run(["git", "-C", "/repo", "checkout", "--", "."], check=True)
         # replays written while a mutant was applied are not evidence
-        subprocess.run("git clean -fdq replays evidence 2>/dev/null; git checkout -- evidence replays 2>/dev/null", shell=True, cwd=root)
+        subprocess.run("git clean -fdq replays evidence 2>/dev/null; git checkout -- evidence 2>/dev/null; git checkout -- replays 2>/dev/null", shell=True, cwd=root)
